@@ -15,7 +15,11 @@ TwistedServer.sendPackets -> reactor.callFromThread(sendPacketsUnsafe) (stub rea
 write() RAISES for destinations the OS refuses (port 0 as srvsim.MockSock; limited broadcast and class E when this kernel
 refuses them), as twisted's udp.Port.write does.  Well-formed client hellos forged from such addresses (and from ordinary
 ones) arrive in the very ticks in which established echo clients have something to be sent.  Oracle: every message of an
-established honest client is echoed, the loop stays alive, nothing is written to a blocked IP."""
+established honest client is echoed, the loop stays alive, nothing is written to a blocked IP.
+blocklist_change_world: the block list is changed on the RUNNING server (setBlockList with a new set / the installed set mutated;
+from the harness thread, from handler.update, from handle_message) behind every front door; per-datagram queue observation
+(srvx feed probe) against the list computed from the operations, unit srv_gate with the list in force per datagram, srv_run on the
+script with the per-step list applied."""
 import struct
 from harness import lib
 from harness import connsim as S
@@ -623,6 +627,292 @@ def refusing_transport_world(run, rng, idx, front, hello):
         w.close()
 
 
+
+# ------------------------------------------------------------------ the block list changes while the server runs
+
+LIVE_RULE = ("live-block-list worlds: behind every front door (TwistedServer.datagramReceived with a fresh / its own thread, ThreadedServer, the socket "
+             "loop _UdpServer.run on a scripted socket), configured before or after construction, the block list of the RUNNING server is changed every "
+             "6-14 ticks: ServerContext.setBlockList with a NEW set (add / remove / replace / empty) or the installed set mutated in place (add / "
+             "discard / clear), from the harness thread while the loop sits in handler.update, from inside handler.update, or from inside "
+             "handle_message; 4 subject IPs send well-formed full-size client hellos, header+junk, random bytes and flipped copies of real datagrams "
+             "from changing ports in every tick, and real UdpClients (echo users) live on the subject IPs before and after each change.  Oracle, "
+             "datagram by datagram at the queue behind the front door, with the list the harness computed from the operations (not read back from the "
+             "server): blocked => not queued, not blocked and well-formed header => queued; no pool entry and no byte out for an address of a "
+             "blocked IP that had no state when the block came into force; no connect / message event from a blocked IP; a real client started on "
+             "an IP after it was unblocked connects and gets its echo; the never-blocked honest client is served throughout.  Correspondence: unit "
+             "srv_gate with the list in force per datagram against the observed queue, and srv_run on the script with the per-step list applied "
+             "(datagrams of IPs blocked at their tick removed, model block list empty); non-trivial = world with >= 3 changes, >= 20 datagrams from "
+             "blocked IPs after a change and >= 1 re-served IP")
+SUBJECTS = ["10.7.0.1", "10.7.0.2", "10.7.0.3", "::ffff:10.7.0.4"]
+
+
+def blocklist_change_world(run, rng, idx, front, hello):
+    from harness import srvx as X
+    base_policy = V.random_policy(rng, p_raise=0.0, echo=1.0, chatty=False)
+    cfg = rng.choice([(5 * T, 2 * T, 1536, T), (6000, 3000, 1536, 7680), (9000, 4500, 1536, T)])
+    initial = set(rng.sample(SUBJECTS, rng.choice([0, 1, 1, 2]))) | set(rng.sample(BLOCKED, rng.choice([0, 1])))
+    state = {"inforce": set(initial), "pending": [], "ops": [], "executed_in_step": None}
+    allowed = {}          # blocked ip -> addresses that had state when the block came into force (may still be written to / time out)
+    fix_allowed = []      # ips blocked from inside a handler event in the current step: their `allowed` is taken at the end of the step
+
+    def execute(sim, op, ips, site):
+        before = set(state["inforce"])
+        sim.block_op(op, ips)
+        if op in ("set-add", "inplace-add"):
+            state["inforce"] |= set(ips)
+        elif op in ("set-remove", "inplace-remove"):
+            state["inforce"] -= set(ips)
+        elif op == "set-replace":
+            state["inforce"] = set(ips)
+        else:
+            state["inforce"] = set()
+        for ip in state["inforce"] - before:
+            allowed[ip] = set(a for pool in (sim.ctxt.connections, sim.ctxt.temp_connections) for a in list(pool) if a[0] == ip)
+            if site != "harness":
+                fix_allowed.append(ip)
+        for ip in before - state["inforce"]:
+            allowed.pop(ip, None)
+        state["ops"].append({"before_harness_step": len(sim.steps) - 1 if site == "harness" else len(sim.steps), "op": op, "ips": sorted(ips), "site": site, "in_force_after": sorted(state["inforce"])})
+
+    def policy(sim, n, ev):
+        acts, raises = base_policy(sim, n, ev)
+        pend = state["pending"]
+        if pend and ((pend[0][2] == "update" and ev[0] == 2) or (pend[0][2] == "message" and ev[0] == 4)):
+            op, ips, site = pend.pop(0)
+            execute(sim, op, ips, site)
+        return acts, raises
+
+    configure = "between" if (idx // len(X.FRONTS)) % 2 else "before"
+    w = X.WorldX(run, rng, cfg=cfg, blocklist=sorted(initial), policy=policy, full=True, front=front, configure=configure)
+    sim = w.sim
+    flags = {}            # model step index -> [blocked?] per datagram of its batch
+    gate_cases, gate_impl = [], []
+    cur = {"st": -1}
+    stats = {"blocked_after_change": 0, "reserved": 0, "queued": 0}
+    base = {"world": idx, "front": front, "configure": configure, "initial_block_list": sorted(initial)}
+
+    def last_op():
+        return state["ops"][-1] if state["ops"] else None
+
+    def probe(addr, raw, queued):
+        bl = state["inforce"]
+        blocked = addr[0] in bl
+        flags.setdefault(len(sim.steps), []).append(blocked)
+        if addr != V.SENTINEL:
+            gate_cases.append([[V.ipid(x) for x in sorted(bl)], V.av(addr), raw])
+            gate_impl.append([1, S.unpack_header(S.pack_header(hdr_list(queued[-1][1])))] if queued else [0])
+        if blocked and state["ops"]:
+            stats["blocked_after_change"] += 1
+        if queued:
+            stats["queued"] += 1
+        if blocked and queued:
+            run.oracle_violation("datagram from a block-listed IP reached the server's queue",
+                                 dict(base, what="blocked ip queued", step=cur["st"], addr=list(addr), raw=raw[:24], block_list_in_force=sorted(bl),
+                                      last_change=last_op(), server_reports=sorted(sim.ctxt.blocklist)), "server.py _UdpServer.run / twisted.py datagramReceived gate")
+        if not blocked and not queued:
+            try:
+                from mpgameserver.connection import PacketHeader
+                PacketHeader.from_bytes(True, raw)
+                wellformed = True
+            except Exception:
+                wellformed = False
+            if wellformed:
+                run.oracle_violation("well-formed datagram from an IP that is not block-listed was discarded at the front door",
+                                     dict(base, what="unblocked ip not queued", step=cur["st"], addr=list(addr), raw=raw[:24],
+                                          block_list_in_force=sorted(bl), last_change=last_op()), "server.py _UdpServer.run / twisted.py datagramReceived gate")
+    sim.feed_probe = probe
+
+    honest = w.add_client(("10.1.0.1", 5000))
+    sent = []
+    subjects = {}         # ip -> list of client records (real UdpClients on that IP)
+    nport = {"n": 0}
+    reserve = []          # {"ip", "rec", "since", "payload"}: a client started after its IP was unblocked
+    nsteps = rng.randrange(70, 100) * (2 if run.thorough() else 1)
+    next_op = rng.randrange(6, 12)
+    died_at = None
+    cid_addr = {}
+
+    def add_subject(ip):
+        nport["n"] += 1
+        rec = w.add_client((ip, 6000 + nport["n"]))
+        subjects.setdefault(ip, []).append(rec)
+        return rec
+    try:
+        for st in range(nsteps):
+            cur["st"] = st
+            if st == 1:
+                for ip in SUBJECTS:
+                    if rng.random() < 0.7:
+                        add_subject(ip)
+            # ---- a change of the block list
+            if st == next_op and not state["pending"]:
+                next_op = st + rng.randrange(6, 15)
+                inf = state["inforce"]
+                outside = [x for x in SUBJECTS if x not in inf]
+                inside = [x for x in SUBJECTS if x in inf]
+                kinds = (["set-add", "set-add", "inplace-add"] if outside else []) + (["set-remove", "inplace-remove"] if inside else []) \
+                    + ["set-replace"] + (["set-empty", "inplace-clear"] if inside and rng.random() < 0.3 else [])
+                op = rng.choice(kinds)
+                if op in ("set-add", "inplace-add"):
+                    ips = rng.sample(outside, min(len(outside), rng.choice([1, 1, 2])))
+                elif op in ("set-remove", "inplace-remove"):
+                    ips = rng.sample(inside, min(len(inside), rng.choice([1, 1, 2])))
+                elif op == "set-replace":
+                    ips = rng.sample(SUBJECTS, rng.choice([1, 2, 3])) + rng.sample(BLOCKED, rng.choice([0, 1]))
+                else:
+                    ips = []
+                site = rng.choice(["harness", "harness", "update", "message"])
+                if site == "harness":
+                    execute(sim, op, ips, site)
+                else:
+                    state["pending"].append((op, ips, site))
+            # ---- the users
+            hc = honest["hc"]
+            if hc.status() == 2 and rng.random() < 0.5 and st < nsteps - 14:
+                p = b"h%d-%d-" % (idx, st) + bytes(rng.randrange(256) for _ in range(rng.choice([0, 3, 50])))
+                hc.client.send(p)
+                sent.append((st, p))
+            for ip, recs_ in subjects.items():
+                for rec in recs_:
+                    if rec["hc"].status() == 2 and rng.random() < 0.4:
+                        rec["hc"].client.send(b"u%d-%d-" % (idx, st) + bytes(rng.randrange(256) for _ in range(rng.choice([0, 5, 60]))))
+            # ---- hostile traffic of the subject IPs (and of the statically blocked ones)
+            extra = []
+            for ip in SUBJECTS + BLOCKED[:1]:
+                for _ in range(rng.choice([0, 1, 1, 2, 3])):
+                    a = (ip, rng.choice([4444, 4444, 4445, 4446 + st % 7, 1]))
+                    k = rng.choice(["hello", "hello", "hdr+junk", "rand", "flip", "spoof-own-client"])
+                    if k == "hello":
+                        d = hello
+                    elif k == "hdr+junk":
+                        n = rng.choice([0, 4, 16, 100])
+                        d = S.pack_header([1, rng.getrandbits(32), rng.randrange(65536), rng.randrange(65536), rng.randrange(8),
+                                           rng.choice([0, n, max(0, n - 4)]), rng.choice([0, 1, 2]), rng.getrandbits(32)]) + bytes(rng.randrange(256) for _ in range(n))
+                    elif k == "rand":
+                        d = bytes(rng.randrange(256) for _ in range(rng.choice([1, 19, 20, 33, 200])))
+                    else:
+                        src = bytearray(rng.choice(w.sent_hist)[1] if w.sent_hist else hello)
+                        src[rng.randrange(len(src))] ^= 1 << rng.randrange(8)
+                        d = bytes(src)
+                        if k == "spoof-own-client" and subjects.get(ip):
+                            a = rng.choice(subjects[ip])["addr"]
+                    extra.append((a, d))
+            rng.shuffle(extra)
+            inforce_at_feed = set(state["inforce"])
+            n0, l0 = len(sim.sends), len(sim.log)
+            alive = w.step(rng.choice([150, 300, 300, 600]), extra)
+            # ---- after the tick
+            for ip in fix_allowed:
+                if ip in state["inforce"]:
+                    allowed[ip] = set(a for pool in (sim.ctxt.connections, sim.ctxt.temp_connections) for a in list(pool) if a[0] == ip)
+            del fix_allowed[:]
+            for c in sim.keep:
+                if hasattr(c, "addr") and id(c) in sim.objs:
+                    cid_addr[sim.objs[id(c)]] = c.addr
+            for pool in (sim.ctxt.connections, sim.ctxt.temp_connections):
+                for a in list(pool):
+                    if a[0] in state["inforce"] and a[0] in inforce_at_feed and a not in allowed.get(a[0], ()):
+                        run.oracle_violation("state for a blocked IP", dict(base, what="state for blocked ip", step=st, addr=list(a),
+                                                                           block_list_in_force=sorted(state["inforce"]), last_change=last_op(),
+                                                                           server_reports=sorted(sim.ctxt.blocklist)), "server.py gate")
+                        allowed.setdefault(a[0], set()).add(a)
+            for (k_, a, data) in sim.sends[n0:]:
+                if a[0] in state["inforce"] and a[0] in inforce_at_feed and a not in allowed.get(a[0], ()):
+                    run.oracle_violation("reply to a blocked IP", dict(base, what="reply to blocked ip", step=st, addr=list(a), bytes=len(data),
+                                                                      block_list_in_force=sorted(state["inforce"]), last_change=last_op()), "server.py gate")
+            for o in sim.log[l0:]:
+                if o[0] == 0 and o[1][0] in (3, 4):
+                    a = cid_addr.get(o[1][1])
+                    if a is not None and a[0] in inforce_at_feed:
+                        run.oracle_violation("handler event caused by a datagram from a blocked IP",
+                                             dict(base, what="event from blocked ip", step=st, addr=list(a), event={3: "connect", 4: "handle_message"}[o[1][0]],
+                                                  block_list_in_force=sorted(inforce_at_feed), last_change=last_op()), "server.py gate")
+            # a fresh real client on every IP that is not blocked any more
+            for ip in SUBJECTS:
+                if ip not in state["inforce"] and ip in inforce_at_feed and st < nsteps - 30:
+                    rec = add_subject(ip)
+                    reserve.append({"ip": ip, "rec": rec, "since": st, "payload": b"back-%d-%d" % (idx, st), "sent": False, "done": False})
+            for r in reserve:
+                if r["done"]:
+                    continue
+                if r["ip"] in state["inforce"]:
+                    r["done"] = True          # blocked again before it was through: nothing is promised
+                    continue
+                hc_ = r["rec"]["hc"]
+                if hc_.status() == 2 and not r["sent"]:
+                    hc_.client.send(r["payload"])
+                    r["sent"] = True
+                if b"echo:" + r["payload"] in hc_.got:
+                    r["done"] = True
+                    stats["reserved"] += 1
+                elif st - r["since"] > 25 and alive:
+                    r["done"] = True
+                    run.oracle_violation("real client on an IP that was taken off the block list is not served",
+                                         dict(base, what="unblocked ip not served", step=st, addr=list(r["rec"]["addr"]), unblocked_at_step=r["since"],
+                                              client_status=hc_.status(), block_list_in_force=sorted(state["inforce"]), last_change=last_op()), "server.py gate")
+            if not alive:
+                died_at = st
+                run.oracle_violation("server loop died", dict(base, what="server loop died", step=st, exception=repr(sim.thread_exc)[:200]),
+                                     "server.py:UdpServerThread.run")
+                break
+        w.finish()
+        # ---- correspondence: the per-datagram gate, and the run with the per-step list applied
+        model = run.model.call_many("srv_gate", gate_cases)
+        run.compare("srv_gate", [["live:" + front, c[0], c[1], c[2][:24]] for c in gate_cases], gate_impl, model)
+        script = sim.model_script()
+        script[2] = []
+        for k, step in enumerate(script[4]):
+            fl = flags.get(k, [])
+            if len(fl) != len(step[2]):
+                raise RuntimeError("harness: %d datagrams fed but %d in the script of step %d" % (len(fl), len(step[2]), k))
+            step[2] = [it for it, f in zip(step[2], fl) if not f]
+        sim.model_script = lambda: script
+        diff = sim.check_model()
+        got = set(honest["hc"].got)
+        echoes = 0
+        for st_, p in sent:
+            if b"echo:" + p[:600] in got:
+                echoes += 1
+            elif died_at is None:
+                run.oracle_violation("honest client not served", dict(base, what="honest client not served", sent_at_step=st_, payload=p[:30]), "server.py")
+        if sim.internal:
+            raise RuntimeError("harness-internal problem: %s" % sim.internal[:3])
+        run.count("live-block-list worlds")
+        run.count("live-block-list worlds behind " + front)
+        run.count("live-block-list changes", len(state["ops"]))
+        for o in state["ops"]:
+            run.count("live-block-list op %s (%s)" % (o["op"], o["site"]))
+        run.count("live-block-list datagrams from blocked IPs after a change", stats["blocked_after_change"])
+        run.count("live-block-list IPs served again", stats["reserved"])
+        run.count("live-block-list echoes", echoes)
+        if len(state["ops"]) >= 3 and stats["blocked_after_change"] >= 20 and stats["reserved"] >= 1:
+            run.nt(("live-block-list", idx, front, tuple(o["op"] for o in state["ops"])))
+        if idx < 2:
+            run.sample(dict(base, steps=len(sim.steps), changes=[(o["before_harness_step"], o["op"], o["site"]) for o in state["ops"]], echoes=echoes,
+                            blocked_after_change=stats["blocked_after_change"], served_again=stats["reserved"]))
+        return ["live block list world %d" % idx, front, configure, len(sim.steps), len(state["ops"])], [0] if diff is None else [1, diff]
+    finally:
+        w.close()
+
+
+def blocklist_change_worlds(run, rng, hello):
+    from harness import srvx as X
+    run.rules.append(LIVE_RULE)
+    cases, impl, model = [], [], []
+    fronts = list(X.FRONTS) + ["udpserver"]
+    n = 60 if run.thorough() else 10
+    tot = {"ops": 0}
+    for i in range(n):
+        c, d = blocklist_change_world(run, rng, i, fronts[i % len(fronts)], hello)
+        cases.append(c)
+        impl.append([0])
+        model.append(d)
+        tot["ops"] += c[4]
+    if tot["ops"] < n:
+        raise RuntimeError("harness: the live-block-list worlds changed the block list only %d times" % tot["ops"])
+    run.compare("srv_run", cases, impl, model)
+
+
 def run(run):
     run.rules.append(RULE)
     run.notes.append("kernel refuses sendto(port 0): %s" % V.os_refuses_port0())
@@ -652,6 +942,7 @@ def run(run):
         impl.append([0])
         model.append(d)
     run.compare("srv_run", cases, impl, model)
+    blocklist_change_worlds(run, run.rng, hello)
     run.rules.append(REFUSING_RULE)
     run.notes.append("transport refuses: port 0 (always), limited broadcast: %s, class E: %s (measured)" % (
         X.refused_by_os(("255.255.255.255", 4000)), X.refused_by_os(("240.0.0.1", 4000))))
